@@ -11,8 +11,8 @@ for f in sorted(glob.glob(str(V / "seeded" / "*" / "meta.json"))):
 text = """## 14. Seeded changes: which check catches what
 
 Every change below was written by a fresh sub-agent that was given only the text of the property and its own scratch
-worktree (nothing from /verif), in four rounds (a-b, c-d, e-f, g-h; each round was told to avoid the code sites and mechanisms
-of the earlier ones). Each was confirmed here: the patch applies to the repository (`applies_to_repo_commit` in `meta.json`), its
+worktree (nothing from /verif), in six rounds (letters a-b, c-d, e-f, g-h, i, then the next free letter per property; each round was told to avoid
+the code sites and mechanisms of the earlier ones). Each was confirmed here: the patch applies to the repository (`applies_to_repo_commit` in `meta.json`), its
 demonstration exits 1 on the changed tree and 0 on the unchanged tree, and the property's quick check was run against the
 changed tree (`tools/try_seed.sh`, via `VERIF_REPO`). That the existing tests do not notice the change was established by the
 seeder's before / after comparison of the test modules covering the touched code (recorded per seed) and, for the first round,
